@@ -913,7 +913,16 @@ def run_check(mod, tier, seed):
         extra = mod.extra(tier, seed)
         extra_viol = extra.get("violations", [])
     hd = getattr(mod, "HISTORY_DIFF", None)
-    if hd and not extra_viol:
+    total = run_batch(mod, tier, seed,
+                      b["runs"] if not extra_viol else min(b["runs"], 200),
+                      b["wall"], chunk=b.get("chunk"),
+                      hang_s=b.get("hang_s", 600))
+    # the process-history differential costs two fresh interpreters per
+    # program: it is run when the seeded batch itself found nothing (a
+    # violation that makes calls hang would be met again, at the full time
+    # limit, by every program of this phase)
+    if hd and not extra_viol and not total["violations"] \
+            and not total["errors"]:
         h = history_differential(mod, tier, seed, hd[tier])
         if extra is None:
             extra = h
@@ -925,10 +934,6 @@ def run_check(mod, tier, seed):
             extra.setdefault("report", {}).update(h["report"])
             extra["exhaustive"] = extra.get("exhaustive", False)
         extra_viol = extra.get("violations", [])
-    total = run_batch(mod, tier, seed,
-                      b["runs"] if not extra_viol else min(b["runs"], 200),
-                      b["wall"], chunk=b.get("chunk"),
-                      hang_s=b.get("hang_s", 600))
     if total["errors"]:
         e = total["errors"][0]
         print("HARNESS-ERROR property=%s run=%d run_seed=%d\n%s" % (
